@@ -167,7 +167,7 @@ func genSemSelector(r *h.Rng, streams []semStream, trivialOnly bool) string {
 		ms = append(ms, k+op+q(v))
 	}
 	s := "{" + strings.Join(ms, ", ") + "}"
-	m := h.Pick(r, []int{0, 0, 1, 1, 2})
+	m := h.Pick(r, []int{0, 0, 0, 1, 1, 2})
 	for i := 0; i < m; i++ {
 		switch {
 		case r.Chance(55):
@@ -210,7 +210,7 @@ func c08Sem(r *h.Result, rng *h.Rng, n int) error {
 		c := genMCtx(rng, d)
 		// windows of a few range buckets so that small databases produce several points per series
 		c.Limit, c.Cluster = 0, false
-		if rng.Chance(85) {
+		if rng.Chance(92) {
 			c.Type = uint8(rng.Intn(2))
 		}
 		nb := int64(rng.Range(1, 4))
